@@ -2,6 +2,7 @@
  * Oracle: the World Geographic Reference System definition (15-degree tiles lettered A..Z without I,O
  * eastwards from 180W and A..M northwards from 90S; 1-degree cells lettered A..Q; minutes) written as
  * containment inequalities on the normalised longitude / latitude -- C18. */
+/*@ uses Math_AngNormalize */
 /*@ ghost */
 #define GEOREF_LONN (g_AngNormalize_ret == 180.0 ? -180.0 : g_AngNormalize_ret)   /* longitude modulo 360 in [-180,180) */
 #define GEOREF_P ((prec < -1 ? -1 : prec > 11 ? 11 : prec) == 1 ? 2 : (prec < -1 ? -1 : prec > 11 ? 11 : prec))
